@@ -1,6 +1,55 @@
 """C32 -- spec/Framing: SSE and HTTP-stream framing deliver each message intact.
 
-(draft docstring; completed below)
+Design side (TLC, exhaustive).  spec/Framing/Framing.tla transcribes (a) the client parsers from the standards --
+WHATWG EventSource stream interpretation (lines end at CRLF | LF | CR, comment lines, first-colon split, one leading
+space stripped, data buffer joined by LF, dispatch on the empty line, event/id/retry, BOM), the LF-delimited JSON
+record splitter, the uvarint length-delimited decoder -- and (b) the framing the handlers do (handler_sse.go:
+"\r\n" once, then "data: " + msg + "\n\n"; handler_http_stream.go: msg + "\n", or protocol.ProtobufDataEncoder),
+plus protocol.Raw.MarshalJSON (the JSON reply encoder deletes LF, and only LF, from embedded payloads) and the
+proposed repair of the SSE framing (one "data: " line per CR/LF/CRLF separated segment).  Bytes are naturals.
+Invariants are EXACT characterisations, so nothing registered is expected to fail:
+  Parse(Frame(msgs)) = msgs  <=>  no message contains an unsafe byte, per framing; the unsafe classes are ASSUMEd:
+  SSE as is {LF, CR}; SSE split: none up to JSON whitespace ({CR} byte-exact: CR arrives as LF); LF-delimited {LF} and
+  the empty message; varint: none.  Through the JSON reply encoder only CR still reaches the SSE framing (ReachSSE).
+Bounds: quick = every single message of length <=4 and every pair of length <=2 over {LF CR : SP d { " x}
+(table.cfg, 10042 rows incl. 31 EventSource conformance vectors); thorough adds singles <=5 / pairs <=3 (8 symbols),
+pairs <=4 over {LF CR : SP d x}, triples <=2.
+
+Code side.  (F) every enumerated row (wire bytes + parse result per framing, cross-parses of the wires by the other
+parsers, conformance vectors) is replayed into the harness's own streaming Go parsers for every 2-chunking and byte
+by byte, into the real protocol.ProtobufDataEncoder and protocol.Raw.  (replay) a real Node behind httptest with
+the real SSEHandler (GET cf_connect and POST), HTTPStreamHandler (JSON and Protobuf) and EmulationHandler: one
+connection per (transport, byte class, field): publication data, connect data, subscribe data, conn/chan info,
+Send() messages, RPC results (raw JSON / raw bytes), channel names, tags, error messages, disconnect reasons
+(strings), pings, multi-message flushes (write delay), 100 KiB messages, Protobuf message lengths across
+127/128 and 16383/16384 (thorough: 2097151/2097152), seed-dependent random JSON with random SP/TAB/LF/CR/CRLF between
+tokens.  The body is read incrementally; ground truth = the messages OnTransportWrite saw.  Checked: same number of
+records, each decodes to the same message (JSON: equal JSON values + accepted by protocol's reply decoder; Protobuf:
+equal bytes), in order; published payloads arrive equal end to end; every message handed to the transport arrives
+within 5 s on an otherwise idle connection ("held-back").  (T) recorded bodies <= 1500 bytes are parsed again by
+the SPEC's parsers in TLC (FramingWire.tla); its verdicts must agree with the Go verdicts, and it names the framing
+operator that produced exactly these bytes (asis/split/both; "neither" = drift).
+
+Genuine defect found on the unchanged tree (DESIGN 10 item 9): SSE + raw CR between JSON tokens of any raw-JSON
+field -> signatures  sse:json:raw-(CR|CRCR|CRLF|LFCR)(-large|-batch|-random-whitespace)?-in-(payload|connect-data|
+subscribe-data|conn-info|message-data|rpc-result).  With the repair (see the lead's report; verified in a scratch
+worktree) the check is green and the bodies are recognised as the spec's SSEFrameSplit.
+
+Mutations (scratch worktrees with the repair applied; each must turn the check red):
+  M1  SSE terminator "\n\n" -> "\n"                                            caught (VIOLATION, all sse classes)
+  M2  "data: " -> "data:"  -- equivalent for the property (server messages start with "{"; the one stripped
+      space is JSON whitespace); reported as DRIFT exit 2 (body is no framing of the spec), by design not a violation
+  M3  http_stream JSON: LF dropped after the last message of a multi-message flush   caught (batch scenarios)
+  M4  SSE: messages of one flush joined into one data line                           caught (batch scenarios)
+  M5  http_stream Protobuf: a byte appended after the length prefix was computed     caught
+  M6a SSE: flush skipped for the first batch                                         caught (held-back)
+  M6b http_stream: flush skipped for the second batch                                caught (held-back)
+  M7  SSE: ping frames written without framing                                       caught (ping scenario)
+  M8  http_stream Protobuf: data encoder hoisted out of the loop, never reset        caught
+  M9  repair: segment after the last CR/LF dropped                                   caught
+  M10 repair: continuation lines without "data: "                                    caught
+  M11 http_stream JSON: delimiter written before instead of after each message       caught
+  M12 repair reverted (= the original defect)                                        caught
 """
 import json
 import os
@@ -39,7 +88,6 @@ def c32(c):
     finally:
         _jvm_restore(old)
     rows = c.dump_states(r)
-    c.log('dump parsed')
     first = [x for x in rows if x['msgs'] == [] and x['vec'] == []]
     if len(first) != 1 or not isinstance(first[0]['res'].get('unsafe'), dict):
         raise vf.Inconclusive('table dump has no class record')
@@ -50,7 +98,6 @@ def c32(c):
         raise vf.Inconclusive('unsafe classes computed by TLC changed: %r' % unsafe)
 
     binp = c.go_build('framing')
-    c.log('harness built')
     tres = c.harness(binp, 'table', rows)
     c.absorb(tres)
     c.log('table replay: %d rows into the harness parsers (%d parser evaluations, every 2-chunking), '
@@ -134,8 +181,18 @@ CHECKS = {'C32': c32}
 
 META = {'C32': dict(
     level='model_checking',
-    text='TODO',
-    note='TODO',
+    text='The WHATWG EventSource stream interpretation, the LF-delimited and the uvarint length-delimited record decoders, and the '
+         'framing done by SSEHandler / HTTPStreamHandler (plus the JSON reply encoder\'s treatment of embedded payloads) are transcribed '
+         'into TLA+; TLC checks over every bounded message list that Parse(Frame(msgs)) = msgs holds exactly when no message contains an '
+         'unsafe byte class, and the unsafe classes are asserted (SSE: LF, CR; newline-delimited: LF; varint: none; only CR survives the '
+         'JSON encoder). Every enumerated wire is replayed into the harness parsers (all 2-chunkings) and the real Protobuf data encoder; '
+         'payloads of every class are then sent through the real handlers over HTTP, the body is parsed with those parsers and compared '
+         'message by message with what the server handed to the transport and with what was published; recorded bodies are parsed once more '
+         'by the specification itself in TLC.',
+    note='Exhaustive for the framing design within the bounds (quick: singles <=4, pairs <=2 over 8 byte classes; thorough: singles <=5, '
+         'pairs <=3, pairs <=4 over 6 classes, triples <=2); the real handlers are sampled by class: one connection per (transport, byte '
+         'class, field) plus seed-dependent random JSON whitespace, not all byte strings. HTTP/1.1 only. Trusted: TLC, lib/tlaparse.py, the '
+         'comparison code of the harness, encoding/json as the JSON equality oracle, OnTransportWrite as the list of server messages.',
     technique='TLA+ transcription of the client parsers and the handlers\' framing + TLC exhaustive enumeration; function-table replay into the harness '
               'parsers and the real encoders; replay through the real HTTP handlers; recorded response bodies validated by TLC',
     design_ref='DESIGN.md 4.4, 8 (C32), 10 item 9')}
